@@ -455,6 +455,7 @@ def run(ctx):
                 ctx.fail("a call failed or returned another call's data under this interleaving", meta, got,
                          [ref[a] for a in args])
     two_operations(ctx)
+    multi_part_replies(ctx)
     mixed_style_port(ctx)
     header_entries_from_plugins(ctx)
     encoded_arrays_next_to_string_replies(ctx)
@@ -544,6 +545,64 @@ def two_operations(ctx):
             if len(tr.sent) != 2 or bad or client.options.headers != {}:
                 ctx.fail("requests of concurrent calls do not each carry their own headers", meta,
                          bad or [len(tr.sent), client.options.headers], "one request per call, own SOAPAction")
+
+
+def multi_part_replies(ctx):
+    """Two operations whose replies have several parts and share a part name ("value": an int in the one, a string in
+    the other), in flight on one client: each reply is decoded by the part types of its own operation."""
+    ops = {"a": [("id", "int"), ("value", "int")], "b": [("name", "string"), ("value", "string")]}
+    w = ['<?xml version="1.0"?><wsdl:definitions targetNamespace="%s" xmlns:wsdl="http://schemas.xmlsoap.org/wsdl/" '
+         'xmlns:w="%s" xmlns:soap="http://schemas.xmlsoap.org/wsdl/soap/" xmlns:xsd="http://www.w3.org/2001/XMLSchema">'
+         % (wsdlkit.WNS, wsdlkit.WNS)]
+    for o, parts in ops.items():
+        w.append('<wsdl:message name="%sIn"><wsdl:part name="x" type="xsd:string"/></wsdl:message><wsdl:message '
+                 'name="%sOut">%s</wsdl:message>' % (o, o, "".join('<wsdl:part name="%s" type="xsd:%s"/>' % p for p in parts)))
+    w.append('<wsdl:portType name="PT">%s</wsdl:portType>' % "".join(
+        '<wsdl:operation name="%s"><wsdl:input message="w:%sIn"/><wsdl:output message="w:%sOut"/></wsdl:operation>'
+        % (o, o, o) for o in ops))
+    w.append('<wsdl:binding name="B" type="w:PT"><soap:binding style="rpc" transport="http://schemas.xmlsoap.org/soap/http"/>%s'
+             '</wsdl:binding>' % "".join(
+                 '<wsdl:operation name="%s"><soap:operation soapAction="urn:%s"/><wsdl:input><soap:body use="literal" '
+                 'namespace="urn:rpc"/></wsdl:input><wsdl:output><soap:body use="literal" namespace="urn:rpc"/></wsdl:output>'
+                 '</wsdl:operation>' % (o, o) for o in ops))
+    w.append('<wsdl:service name="S"><wsdl:port name="P" binding="w:B"><soap:address location="http://h.invalid/mp"/>'
+             '</wsdl:port></wsdl:service></wsdl:definitions>')
+
+    def reply_for(request):
+        o = "a" if b"urn:a" in (request.headers.get("SOAPAction") or b"") else "b"
+        first = "<id>1</id>" if o == "a" else "<name>n</name>"
+        return ('<e:Envelope xmlns:e="%s"><e:Body><r:%sResponse xmlns:r="urn:rpc">%s<value>007</value></r:%sResponse>'
+                '</e:Body></e:Envelope>' % (xmlread.ENV11, o, first, o)).encode()
+    tr = wsdlkit.RecordingTransport(reply=reply_for)
+    client = wsdlkit.client("".join(w).encode(), transport=tr)
+
+    def op(c, name):
+        def fn():
+            r = getattr(c.service, name)("x")
+            return [[k, type(v).__name__, str(v)] for k, v in r]
+        return fn
+    want = {"a": [["id", "int", "1"], ["value", "int", "7"]], "b": [["name", "Text", "n"], ["value", "Text", "007"]]}
+    seq = {o: op(client, o)() for o in ops}
+    ctx.case(("multi-part-replies", "sequential"), True)
+    if seq != want:
+        ctx.fail("a reply with several parts is not decoded by the part types of its operation",
+                 {"scenario": "multi-part-replies/sequential"}, seq, want)
+        return
+    res, total, errs = run_schedule([op(client, "a"), op(client, "b")], {})
+    pts = sorted(set(int(1 + i * (total / 2 - 1) / 60.0) for i in range(61)))
+    for who in ("same-client", "client+clone"):
+        other = client if who == "same-client" else client.clone()
+        for first, second in (("a", "b"), ("b", "a")):
+            for k in pts[::1 if who == "same-client" else 3]:
+                res, nev, errs = run_schedule([op(client, first), op(other, second)], {k: 1})
+                meta = {"scenario": "multi-part-replies/" + who, "order": first + second, "preempt_after_event": k}
+                ctx.case(common.canon(meta), True)
+                ctx.dist["schedule:multi-part-replies"] += 1
+                got = [r[1] if r and r[0] == "ok" else r for r in res]
+                if errs or got != [want[first], want[second]]:
+                    ctx.fail("a call failed or decoded its reply by another call's part types because that call was in "
+                             "progress", meta, [errs, got], [want[first], want[second]])
+                    return
 
 
 def header_entries_from_plugins(ctx):
